@@ -1,6 +1,7 @@
 import Fabio.Driver.Proto
 import Fabio.Model.C17
 import Fabio.Model.C17Proxy
+import Fabio.Model.C17Fault
 /-!
 Driver for C17. One case = one scripted upstream response served through the real `NewGzipHandler`
 (`got`) and through the bare scripted handler (`base`), either into a recorder or over a real server.
@@ -416,42 +417,95 @@ def faultOf (j : Json) : Except String (Option FaultObs) := do
                  hdr := ← pairs (← f.getObjVal? "hdr"), body := ← blobOf (← f.getObjVal? "body"),
                  isPrefix := ← f.getObjValAs? Bool "prefix" })
 
+/-- the script in segments: up to the first `Write`, then from each `Write` up to the next. -/
+def splitWrites : List Op → List (List Op)
+  | [] => [[]]
+  | o :: r =>
+    match splitWrites r with
+    | [] => [[o]]   -- unreachable
+    | s0 :: rest => (match o with
+      | .w _ => [] :: (o :: s0) :: rest
+      | _ => (o :: s0) :: rest)
+
+structure FItem where
+  C : Cfg Unit
+  engaged : Bool
+  ops : List Op
+  parent : Int
+  pos : Nat
+
+/-- what serving exchange `i` of the schedule — with everything served from inside its handler — does to the pool:
+the model's `engagedP` (the script in segments, the inner exchanges' effects in between). -/
+def poolEffect (items : Array FItem) : Nat → Nat → List Unit → List Unit
+  | 0, _, p => p
+  | fuel + 1, i, p =>
+    match items[i]? with
+    | none => p
+    | some it =>
+      let segsOps := splitWrites it.ops
+      let nw := segsOps.length - 1
+      let kidsAt (k : Nat) : List Nat :=
+        (List.range items.size).filter (fun c => match items[c]? with
+          | some ci => ci.parent == Int.ofNat i && min ci.pos nw == k
+          | none => false)
+      let segs := (segsOps.zip (List.range segsOps.length)).map (fun (seg, k) =>
+        (seg, fun (q : List Unit) => (kidsAt k).foldl (fun q c => poolEffect items fuel c q) q))
+      if it.engaged then (engagedP it.C (hadd [] hVary hAcceptEncoding) p segs).pool
+      else segs.foldl (fun q sg => sg.2 q) p
+
 /-- c17.fault: a schedule of exchanges over one handler value — one after the other, or served from inside another
 exchange's handler (in flight at the same time) — some of them to a client that goes away after `cap` body bytes.
 Every exchange is judged on its own (`Props.C17Fault`: a response depends neither on what was served before, nor on
 what is in flight, nor on clients that left); what a departed client got is `Down.cut cap` of what a patient client
 gets from the same exchange: same status, same header map, the first `cap` bytes. -/
 def faultH : Handler := fun inp impl => do
-  match impl.getArr? with
+  match impl.getObjVal? "outs" with
   | .error _ =>
     let isPanic := (impl.getObjVal? "panic").toOption.isSome
     return ({ model := Json.null, agree := !isPanic, spec := !isPanic, nontrivial := false,
               tag := if isPanic then "panic" else "rejected-input" } : Verdict).toJson
-  | .ok outs =>
+  | .ok outsJ =>
+    let outs ← outsJ.getArr?
     let items ← (← inp.getObjVal? "items").getArr?
     if items.size != outs.size then throw "fault: size mismatch"
+    let poolJ ← impl.getObjVal? "pool"
+    let poolN ← poolJ.getObjValAs? Nat "n"
+    let poolTwice ← poolJ.getObjValAs? Bool "twice"
     let es ← (items.toList.zip outs.toList).mapM (fun (i, o) => do
       let c ← caseOf i o
       let c := { c with layer := "rec" }   -- this stream has the recorder layer only
       let e := evalCase c
       let f ← faultOf o
-      let nested := decide (((i.getObjValAs? Int "parent").toOption.getD (-1)) ≥ 0)
-      -- the departed client: the patient client's response, cut
+      let parent := (i.getObjValAs? Int "parent").toOption.getD (-1)
+      let nested := decide (parent ≥ 0)
+      -- the departed client: the patient client's response, cut (`client_gone_gets_prefix`)
       let gone := match f with
         | none => true
         | some f => f.status == c.got.status && f.hdr == c.got.hdr && f.isPrefix &&
                     f.body.len == min f.cap c.got.body.len
-      pure (e, f.isSome, nested, gone))
-    let bad := es.find? (fun (e, _, _, gone) => !e.spec || !e.agree || !gone)
-    let gz := (es.filter (fun (e, _, _, _) => e.tag.endsWith "gzip/implicit" || e.tag.endsWith "gzip/explicit")).length
-    let anyGone := es.any (fun (_, f, _, _) => f)
-    let anyNested := es.any (fun (_, _, n, _) => n)
-    return ({ model := Json.arr (es.map (fun (e, _, _, _) => e.model)).toArray,
-              agree := es.all (fun (e, _, _, gone) => e.agree && gone), spec := es.all (fun (e, _, _, _) => e.spec),
+      let fi : FItem := { C := cfgOf c, engaged := acceptsGzip (reqHdr c.req) && c.method != "HEAD", ops := modelOps c,
+                          parent := parent, pos := (i.getObjValAs? Nat "at").toOption.getD 0 }
+      pure (e, f.isSome, nested, gone, fi))
+    let fitems := (es.map (fun (_, _, _, _, fi) => fi)).toArray
+    -- the pool after the schedule, from the empty pool: the top-level exchanges one after the other
+    let predicted := ((List.range fitems.size).filter (fun i => match fitems[i]? with
+        | some fi => fi.parent < 0
+        | none => false)).foldl (fun p i => poolEffect fitems (fitems.size + 1) i p) []
+    -- the harness runs the schedule on one P with the collector off: sync.Pool then holds exactly what was put in and
+    -- not taken out, which is the model's pool — the same number of writers, none of them twice
+    let poolAgree := poolN == predicted.length
+    let bad := es.find? (fun (e, _, _, gone, _) => !e.spec || !e.agree || !gone)
+    let gz := (es.filter (fun (e, _, _, _, _) => e.tag.endsWith "gzip/implicit" || e.tag.endsWith "gzip/explicit")).length
+    let anyGone := es.any (fun (_, f, _, _, _) => f)
+    let anyNested := es.any (fun (_, _, n, _, _) => n)
+    return ({ model := Json.mkObj [("items", Json.arr (es.map (fun (e, _, _, _, _) => e.model)).toArray), ("pool", predicted.length)],
+              agree := es.all (fun (e, _, _, gone, _) => e.agree && gone) && poolAgree,
+              spec := es.all (fun (e, _, _, _, _) => e.spec) && !poolTwice,
               nontrivial := gz ≥ 2 && (anyGone || anyNested),
-              tag := match bad with
-                | some (e, _, _, gone) => if !e.spec || !e.agree then "fault/" ++ e.tag else if !gone then "fault/departed-client-differs" else "fault"
-                | none => "fault/" ++ (if anyGone then "client-gone+" else "") ++ (if anyNested then "in-flight+" else "") ++
+              tag := if poolTwice then "fault/writer-twice-in-pool" else match bad with
+                | some (e, _, _, gone, _) => if !e.spec || !e.agree then "fault/" ++ e.tag else if !gone then "fault/departed-client-differs" else "fault"
+                | none => if !poolAgree then "fault/pool-differs-from-model" else
+                          "fault/" ++ (if anyGone then "client-gone+" else "") ++ (if anyNested then "in-flight+" else "") ++
                           (if gz == 0 then "none-compressed" else if gz == es.length then "all-compressed" else "mixed") } : Verdict).toJson
 
 /-! c17.proxy -/
